@@ -411,7 +411,7 @@ impl G {
                 if n["n"]["k"] == "i" {
                     return self.int_near(&t);
                 }
-                return f_node(&t.replace(".0", ".5"));
+                return f_node(&t);
             }
             return match self.r.below(4) {
                 0 => f_node(&self.flt_text()),
@@ -458,8 +458,9 @@ impl G {
                     i_node(t)
                 }
             }
-            2 => f_node(&format!("{}.5", t)),
-            3 => f_node(&format!("{}.0", t)),
+            // floats only where the decimal text is exactly representable (|t| < 2^52)
+            2 if t.trim_start_matches('-').len() <= 15 => f_node(&format!("{}.5", t)),
+            3 if t.trim_start_matches('-').len() <= 15 => f_node(&format!("{}.0", t)),
             _ => i_node(t),
         }
     }
